@@ -122,26 +122,31 @@ def gen(rng, tier, spec):
 # ----------------------------------------------------------------------------- reference specification
 
 class Spec:
-    """sequential specification of DelayedObjects<long> + std::promise/std::future"""
+    """sequential specification of DelayedObjects<X> + std::promise/std::future, X's copy may throw.
+    A throwing copy in setDelayedValue leaves everything as it was (the key stays pending).
+    A throwing copy in fulfillAllPromises before anything was delivered likewise; once that call has
+    delivered a value and then throws, the class is outside its specification (`torn`: the pending maps
+    keep moved-from promises) and the monitors stop."""
 
     def __init__(self, nthreads, nslots):
         self.pending = {}      # (kind,key) -> future id
         self.completed = {}    # (kind,key) -> future id
         self.fut = []          # future id -> None (not ready) | value | 'broken'
         self.key_of = []       # future id -> (kind,key)
-        self.requests = {}     # (kind,key) -> number of getFuture calls
         self.slots = [[None] * nslots for _ in range(nthreads)]
         self.nslots = nslots
+        self.torn = False
+        self.sect = {}         # thread -> the part of its critical section that waits for a copy
 
-    def call(self, t, op):
-        """a locking operation; returns the expected return value"""
+    def lock(self, t, op):
+        """the critical section starts; returns the value the call will return"""
         o = op[0]
+        self.sect.pop(t, None)
         if o == GETF:
             kk = (1 if op[1] else 0, op[2])
             fid = len(self.fut)
             self.fut.append(None)
             self.key_of.append(kk)
-            self.requests[kk] = self.requests.get(kk, 0) + 1
             old = self.pending.get(kk)
             if old is not None and self.fut[old] is None:
                 self.fut[old] = 'broken'          # re-request of a pending key: outside the property, std semantics
@@ -149,18 +154,17 @@ class Spec:
             if 0 <= op[3] < self.nslots:
                 self.slots[t][op[3]] = fid
             return 0
-        if o in (SETC, SETM):
+        if o == SETM:
+            self._set((1 if op[1] else 0, op[2]), op[3])
+            return 0
+        if o == SETC:
             kk = (1 if op[1] else 0, op[2])
-            fid = self.pending.pop(kk, None)
-            if fid is not None:
-                self.fut[fid] = op[3]
-                self.completed[kk] = fid
+            if kk in self.pending:
+                self.sect[t] = {'todo': [kk], 'v': op[3], 'done': 0}
             return 0
         if o == FULFILL:
-            for kk, fid in list(self.pending.items()):
-                self.fut[fid] = op[1]
-                self.completed[kk] = fid
-            self.pending = {}
+            # int map first, then string map, each in key order
+            self.sect[t] = {'todo': sorted(self.pending.keys()), 'v': op[1], 'done': 0}
             return 0
         kk = (1 if op[1] else 0, op[2])
         if o == ISREC:
@@ -171,6 +175,32 @@ class Spec:
             self.completed.pop(kk, None)
             return 0
         return 0
+
+    def _set(self, kk, v):
+        fid = self.pending.pop(kk, None)
+        if fid is not None:
+            self.fut[fid] = v
+            self.completed[kk] = fid
+
+    def copy(self, t, op, throws):
+        """one copy of X inside thread t's critical section"""
+        sc = self.sect.get(t)
+        if sc is None or not sc['todo']:
+            return
+        if throws:
+            if op[0] == FULFILL and sc['done'] > 0:
+                self.torn = True
+            self.sect.pop(t, None)
+            return
+        self._set(sc['todo'].pop(0), sc['v'])
+        sc['done'] += 1
+
+    def unlock(self, t, op):
+        """the section ends normally: whatever it still owes is due now"""
+        sc = self.sect.pop(t, None)
+        if sc:
+            for kk in sc['todo']:
+                self._set(kk, sc['v'])
 
     def code(self, fid):
         if fid is None:
@@ -193,13 +223,15 @@ class Spec:
 
 
 def _replay(case, lines):
-    """walk the implementation trace; yield (line index, tid, what, op, observed, expected, spec)"""
+    """walk the implementation trace; yield (line index, tid, what, op, observed, expected, spec);
+    stops when the run leaves the specification (see Spec.torn)"""
     progs = case['progs']
     nslots = case['cfg'][0] if case['cfg'] else 0
     sp = Spec(len(progs), nslots)
     nxt = [0] * len(progs)
     cur = [None] * len(progs)
     exp = [None] * len(progs)
+    threw = [False] * len(progs)
     for i, l in enumerate(lines):
         if len(l) != 5 or l[0] < 0:
             continue
@@ -207,6 +239,7 @@ def _replay(case, lines):
         if t >= len(progs):
             continue
         if k == K['INVOKE']:
+            threw[t] = False
             if nxt[t] < len(progs[t]):
                 cur[t] = progs[t][nxt[t]]
                 nxt[t] += 1
@@ -215,13 +248,30 @@ def _replay(case, lines):
                 cur[t] = None
         elif k == K['LOCK']:
             if cur[t] is not None and cur[t][0] in LOCKING:
-                exp[t] = sp.call(t, cur[t])
+                exp[t] = sp.lock(t, cur[t])
+        elif k == K['CALL']:
+            nl = lines[i + 1] if i + 1 < len(lines) else []
+            th = len(nl) == 5 and nl[0] == t and nl[1] == K['THROW']
+            if cur[t] is not None:
+                sp.copy(t, cur[t], th)
+                if sp.torn:
+                    return
+            threw[t] = threw[t] or th
+        elif k == K['UNLOCK']:
+            if cur[t] is not None and not threw[t]:
+                sp.unlock(t, cur[t])
         elif k == K['RET']:
             if cur[t] is not None:
                 yield i, t, 'ret', cur[t], v, exp[t], sp
             cur[t] = None
-        elif k in (K['FAULT'], K['CATCH']):
+        elif k == K['CATCH']:
+            yield i, t, ('catch' if threw[t] else 'fault'), cur[t], v, None, sp
+            cur[t] = None
+        elif k == K['FAULT']:
             yield i, t, 'fault', cur[t], v, None, sp
+    for i, l in enumerate(lines):
+        if len(l) >= 2 and l[0] == -2 and l[1] in (998, 999):
+            yield i, -1, 'terminate', None, l[1], None, sp
     sp.destroy()
     for i, l in enumerate(lines):
         if len(l) == 4 and l[0] == -2:
@@ -233,12 +283,13 @@ def _replay(case, lines):
 # ----------------------------------------------------------------------------- monitors
 
 def mon_fault(case, lines):
-    """an exception (std::future_error: promise_already_satisfied, ...) escaped a library call"""
+    """an exception other than the one thrown by a copy of X (std::future_error: promise_already_satisfied,
+    no_state, ...) escaped a library call, or would escape the destructor"""
     for i, t, what, op, obs, exp, sp in _replay(case, lines):
         if what == 'fault' or (what == 'ret' and obs == RV_FAULT):
             return 'thread %d: an exception escaped operation %s at trace line %d' % (t, op, i)
-    if [l for l in lines if len(l) == 2 and l[0] == -2 and l[1] == 999]:
-        return 'exception in ~DelayedObjects'
+        if what == 'terminate':
+            return '~DelayedObjects would throw (a pending map holds a promise that cannot be set): std::terminate'
     return None
 
 
